@@ -4,6 +4,7 @@ import (
 	stdjson "encoding/json"
 	"fmt"
 	"strings"
+	"sync"
 
 	schema "github.com/jsightapi/jsight-schema-core"
 	cbytes "github.com/jsightapi/jsight-schema-core/bytes"
@@ -77,11 +78,12 @@ func c20Tables(r *mon.Run) {
 				}
 				continue
 			}
-			if !doc[a] || !doc[b] {
-				continue // "comment": documentation silent
-			}
 			if a == b && !ab {
+				// reflexive on every defined type, "comment" included
 				r.Violate("soft-reflexive", a, fmt.Sprintf("IsEqualSoft(%q,%q)=false", a, a), cs)
+			}
+			if !doc[a] || !doc[b] {
+				continue // "comment": documentation silent about its families
 			}
 			if want := c20SoftRef(a, b); ab != want {
 				r.Violate("soft-families", a+"~"+b, fmt.Sprintf("IsEqualSoft(%q,%q)=%v, documented families say %v", a, b, ab, want), cs)
@@ -132,6 +134,19 @@ func c20Tables(r *mon.Run) {
 
 const c20Reps = 24
 
+var c20Bufs sync.Map // (shard, length) -> []byte
+
+// c20Buffer returns the shard's buffer for literals of n bytes (exact capacity).
+func c20Buffer(shard, n int) []byte {
+	k := [2]int{shard, n}
+	if b, ok := c20Bufs.Load(k); ok {
+		return b.([]byte)
+	}
+	b := make([]byte, n, n)
+	c20Bufs.Store(k, b)
+	return b
+}
+
 // c20Literal judges one literal text.
 func c20Literal(r *mon.Run, lit string) {
 	r.Eval(1)
@@ -140,8 +155,19 @@ func c20Literal(r *mon.Run, lit string) {
 	for i := 0; i < c20Reps; i++ {
 		var t schema.SchemaType
 		var err error
-		if p := mon.Guard(func() { t, err = schema.GuessSchemaType([]byte(lit)) }); p != nil {
+		in := []byte(lit)
+		if i%2 == 0 {
+			// every other call (the first one included) hands the literal over in a caller's buffer that held the previous literal of this
+			// length (same address, same length, other bytes): the answer belongs to the bytes, not to the buffer
+			in = c20Buffer(r.Shard, len(lit))
+			copy(in, lit)
+		}
+		if p := mon.Guard(func() { t, err = schema.GuessSchemaType(in) }); p != nil {
 			r.Violate("guess-panic", p.Site, fmt.Sprintf("GuessSchemaType(%q) panicked: %s", lit, p.Value), map[string]any{"kind": "literal", "lit": lit})
+			return
+		}
+		if string(in) != lit {
+			r.Violate("guess-deterministic", "caller buffer changed", fmt.Sprintf("GuessSchemaType(%q) changed the caller's bytes to %q", lit, in), map[string]any{"kind": "literal", "lit": lit})
 			return
 		}
 		es := ""
@@ -309,7 +335,7 @@ func init() {
 				c20Tables(r)
 			}
 		},
-		Rule:               "tables: IsValidType on the 16 documented names and 9 near-miss spellings of each; IsEqualSoft on all 18x18 ordered pairs (documented families, symmetry, reflexivity, undefined); token-type agreement for every json.Type. literals: every RFC 8259 number over {0 1 5 - + . e E} up to length 6 (quick) / 8 (thorough), every string literal whose content is <= 4 / 5 atoms from 20 (letters, dot, e, digits, escapes, brackets, non-UTF-8 bytes, an astral character, DEL), true/false/null/{/[, plus random numbers and strings; each literal is guessed 24 times (map-order sampling) and compared with json.Guess(..).JsonType(). distinct_nontrivial = distinct literals, pairs and probes (hashed).",
+		Rule:               "tables: IsValidType on the 16 documented names and 9 near-miss spellings of each; IsEqualSoft on all 18x18 ordered pairs (documented families, symmetry, reflexivity, undefined); token-type agreement for every json.Type. literals: every RFC 8259 number over {0 1 5 - + . e E} up to length 6 (quick) / 8 (thorough), every string literal whose content is <= 4 / 5 atoms from 20 (letters, dot, e, digits, escapes, brackets, non-UTF-8 bytes, an astral character, DEL), true/false/null/{/[, plus random numbers and strings; each literal is guessed 24 times (map-order sampling; every other time in a caller's buffer that held the previous literal of the same length) and compared with json.Guess(..).JsonType(). distinct_nontrivial = distinct literals, pairs and probes (hashed).",
 		MinNontrivialQuick: 20000, MinNontrivialThorough: 200000,
 		Assumptions: []string{"documented vocabulary and families typed in from the IsEqualSoft doc comment and the README type list", "IsValidType(\"comment\") not judged (internal type name)",
 			"encoding/json.Valid decides which enumerated number strings are literals", "a two-way map-order dependence escapes 24 repetitions with probability 2^-23 per literal"},
